@@ -1,5 +1,166 @@
 import Cellml.Basic.Sexp
-/-! Channel C06 of the model driver (stub: not built yet). -/
+import Cellml.Model.ConvertVar
+
+/-! Channel C06: one history of `convert_variable` calls per request.
+
+    `(C06 (vars (name scale (d0 … d7) init cmeta) …) (eqs (lhs rhs) …) (steps (v scale (d0 … d7) cf in|out move) …)
+          (points ((id value) …) …))`
+    → one entry per step: `(ret raised (vars …) (eqs …) (vardef ids) (odedef ids) free (cmeta (id var) …) (rep …)
+                            (values per point: ((var values) (derivative values))))`.
+    Expressions: `(v i) (d x t) (q value scale dims) (+ a b) (- a b) (* a b) (/ a b) (f1 "name" a) (f2 "name" a b)`.
+    The points give values to the state variables and the free variable of the *initial* model; after an INPUT
+    conversion of one of them the new variable takes over with `cf ×` the value. The model is then evaluated exactly
+    over `Rat` (equations in any order, as many passes as there are equations). -/
 namespace C06
-def handle (_args : List Sexp) : Sexp := .atom "not-implemented"
+open Sexp Model Model.CV
+
+def ofOpt {α} (f : α → Sexp) : Option α → Sexp
+  | some x => f x
+  | none => .atom "none"
+
+def optStr? : Sexp → Option (Option String)
+  | .atom "none" => some none
+  | .str s => some (some s)
+  | _ => none
+
+def optRat? : Sexp → Option (Option Rat)
+  | .atom "none" => some none
+  | e => (rat? e).map some
+
+def dim? : Sexp → Option Dim
+  | .list [a, b, c, d, e, f, g, h] => do
+      some ⟨← int? a, ← int? b, ← int? c, ← int? d, ← int? e, ← int? f, ← int? g, ← int? h⟩
+  | _ => none
+
+def ofDim (d : Dim) : Sexp := .list [ofInt d.d0, ofInt d.d1, ofInt d.d2, ofInt d.d3, ofInt d.d4, ofInt d.d5, ofInt d.d6, ofInt d.d7]
+
+def x? : Sexp → Option X
+  | .list [.atom "v", i] => do some (.var (← nat? i))
+  | .list [.atom "d", x, t] => do some (.deriv (← nat? x) (← nat? t))
+  | .list [.atom "q", q, sc, d] => do some (.lit (← rat? q) ⟨← rat? sc, ← dim? d⟩)
+  | .list [.atom "+", a, b] => do some (.add (← x? a) (← x? b))
+  | .list [.atom "-", a, b] => do some (.sub (← x? a) (← x? b))
+  | .list [.atom "*", a, b] => do some (.mul (← x? a) (← x? b))
+  | .list [.atom "/", a, b] => do some (.div (← x? a) (← x? b))
+  | .list [.atom "f1", .str f, a] => do some (.fn1 f (← x? a))
+  | .list [.atom "f2", .str f, a, b] => do some (.fn2 f (← x? a) (← x? b))
+  | _ => none
+
+def ofX : X → Sexp
+  | .var v => .list [.atom "v", ofNat v]
+  | .deriv x t => .list [.atom "d", ofNat x, ofNat t]
+  | .lit q u => .list [.atom "q", ofRat q, ofRat u.scale, ofDim u.dim]
+  | .add a b => .list [.atom "+", ofX a, ofX b]
+  | .sub a b => .list [.atom "-", ofX a, ofX b]
+  | .mul a b => .list [.atom "*", ofX a, ofX b]
+  | .div a b => .list [.atom "/", ofX a, ofX b]
+  | .fn1 f a => .list [.atom "f1", .str f, ofX a]
+  | .fn2 f a b => .list [.atom "f2", .str f, ofX a, ofX b]
+
+def lhs? : Sexp → Option CLhs
+  | .list [.atom "v", i] => do some (.var (← nat? i))
+  | .list [.atom "d", x, t] => do some (.deriv (← nat? x) (← nat? t))
+  | _ => none
+
+def ofLhs : CLhs → Sexp
+  | .var v => .list [.atom "v", ofNat v]
+  | .deriv x t => .list [.atom "d", ofNat x, ofNat t]
+
+def var? : Sexp → Option CVar
+  | .list [.str n, sc, d, i, c] => do some ⟨n, ⟨← rat? sc, ← dim? d⟩, ← optRat? i, ← optStr? c⟩
+  | _ => none
+
+def eqn? : Sexp → Option CEqn
+  | .list [l, r] => do some ⟨← lhs? l, ← x? r⟩
+  | _ => none
+
+structure Step where
+  v : Nat
+  u : U
+  cf : Rat
+  dir : Dir
+  move : Bool
+
+def step? : Sexp → Option Step
+  | .list [v, sc, d, cf, dir, mv] => do
+      some ⟨← nat? v, ⟨← rat? sc, ← dim? d⟩, ← rat? cf, if dir == .atom "in" then .input else .output, mv == .atom "true"⟩
+  | _ => none
+
+def point? : Sexp → Option (List (Nat × Rat))
+  | .list ps => ps.mapM fun
+      | .list [i, q] => do some (← nat? i, ← rat? q)
+      | _ => none
+  | _ => none
+
+/-- the model as the API builds it: the variables, then `add_equation` for each equation in turn -/
+def build (vars : List CVar) (eqs : List CEqn) : CState :=
+  let cm := (vars.zipIdx.filterMap fun (x, i) => x.cmeta.map (·, i)).foldl (fun m p => insertKey p.1 p.2 m) []
+  eqs.foldl (fun s e => addEq s e true) { vars := vars, cmetaMap := cm }
+
+-- ------------------------------------------------------------------------------------------------ exact evaluation
+abbrev Known := List (Nat × Rat) × List ((Nat × Nat) × Rat)
+
+def evalO (k : Known) : X → Option Rat
+  | .var v => k.1.lookup v
+  | .deriv x t => k.2.lookup (x, t)
+  | .lit q _ => some q
+  | .add a b => do some ((← evalO k a) + (← evalO k b))
+  | .sub a b => do some ((← evalO k a) - (← evalO k b))
+  | .mul a b => do some ((← evalO k a) * (← evalO k b))
+  | .div a b => do
+      let d ← evalO k b
+      if d = 0 then none else some ((← evalO k a) / d)
+  | .fn1 _ _ => none
+  | .fn2 _ _ _ => none
+
+def pass (eqs : List CEqn) (k : Known) : Known :=
+  eqs.foldl (fun k e =>
+    match e.lhs with
+    | .var v => if (k.1.lookup v).isSome then k else
+        (match evalO k e.rhs with | some r => ((v, r) :: k.1, k.2) | none => k)
+    | .deriv x t => if (k.2.lookup (x, t)).isSome then k else
+        (match evalO k e.rhs with | some r => (k.1, ((x, t), r) :: k.2) | none => k)) k
+
+def solve (s : CState) (pt : List (Nat × Rat)) : Known :=
+  (List.range s.equations.length).foldl (fun k _ => pass s.equations k) (pt, [])
+
+def ofValues (s : CState) (pt : List (Nat × Rat)) : Sexp :=
+  let k := solve s pt
+  .list [.list ((List.range s.vars.length).map fun i => ofOpt ofRat (k.1.lookup i)),
+         .list (s.equations.filterMap fun e => match e.lhs with
+            | .deriv x t => some (.list [ofNat x, ofNat t, ofOpt ofRat (k.2.lookup (x, t))])
+            | .var _ => none)]
+
+def snapshot (s : CState) (ret : Nat) (rep : Rep) (pts : List (List (Nat × Rat))) : Sexp :=
+  .list [ofNat ret, ofBool s.raised,
+    .list (s.vars.map fun x => .list [.str x.name, ofRat x.unit.scale, ofDim x.unit.dim, ofOpt ofRat x.init,
+                                      ofOpt Sexp.str x.cmeta]),
+    .list (s.equations.map fun e => .list [ofLhs e.lhs, ofX e.rhs]),
+    .list (s.varDef.map fun p => ofNat p.1), .list (s.odeDef.map fun p => ofNat p.1), ofOpt ofNat (getFree s),
+    .list (s.cmetaMap.map fun p => .list [.str p.1, ofNat p.2]),
+    .list (rep.map fun p => .list [ofNat p.1.1, ofNat p.1.2, ofNat p.2]),
+    .list (pts.map (ofValues s))]
+
+def movePoint (st : Step) (nv : Nat) (pt : List (Nat × Rat)) : List (Nat × Rat) :=
+  match st.dir, pt.lookup st.v with
+  | .input, some q => if st.cf = 1 then pt else (nv, st.cf * q) :: pt.filter (fun p => p.1 ≠ st.v)
+  | _, _ => pt
+
+def runSteps (s : CState) (pts : List (List (Nat × Rat))) : List Step → List Sexp
+  | [] => []
+  | st :: rest =>
+      let (s', nv, rep) := convertVariable s st.v st.u st.cf st.dir st.move
+      let pts' := pts.map (movePoint st nv)
+      snapshot s' nv rep pts' :: runSteps s' pts' rest
+
+def handle (args : List Sexp) : Sexp :=
+  match args with
+  | [.list (.atom "vars" :: vs), .list (.atom "eqs" :: es), .list (.atom "steps" :: ss), .list (.atom "points" :: ps)] =>
+      match vs.mapM var?, es.mapM eqn?, ss.mapM step?, ps.mapM point? with
+      | some vars, some eqs, some steps, some pts =>
+          let s := build vars eqs
+          .list (snapshot s 0 [] pts :: runSteps s pts steps)
+      | _, _, _, _ => .atom "bad-request"
+  | _ => .atom "bad-request"
+
 end C06
